@@ -30,10 +30,19 @@ def _pure(e):
         # only projections of a node tuple by a module constant (node[OBJ], node[KEY]): reads of
         # mutable containers (self.cells[name], self.idxstack[-1]) depend on *when* they happen
         s = e.slice
-        return isinstance(s, ast.Name) and s.id.isupper() and _pure(e.value)
+        if isinstance(s, ast.Name) and s.id.isupper() and _pure(e.value):
+            return True
+        # element of a sequence held in a plain local / parameter (bases[0]); the mutation guards apply
+        return isinstance(s, ast.Constant) and isinstance(s.value, int) and isinstance(e.value, ast.Name)
     if isinstance(e, ast.Call):
         return isinstance(e.func, ast.Name) and e.func.id in _PURE_CALLS and len(e.args) == 1 \
             and not e.keywords and _pure(e.args[0])
+    if isinstance(e, ast.Compare):
+        return _pure(e.left) and all(_pure(c) for c in e.comparators)
+    if isinstance(e, ast.UnaryOp) and isinstance(e.op, ast.Not):
+        return _pure(e.operand)
+    if isinstance(e, ast.BoolOp):
+        return all(_pure(v) for v in e.values)
     return False
 
 
@@ -49,7 +58,83 @@ def _local_nodes(fn):
         stack.extend(ast.iter_child_nodes(n))
 
 
-def alias_defs(fn):
+def _loop_local(fn, name, roots):
+    """`name` is defined inside the body of a for loop whose target binds every multi-bound root it reads,
+    those roots are bound nowhere else, and every use of `name` is inside that loop body, after the definition."""
+    def targets(t):
+        return {a.id for a in ast.walk(t) if isinstance(a, ast.Name)}
+    loops = [n for n in _local_nodes(fn) if isinstance(n, ast.For) and roots <= targets(n.target)]
+    if len(loops) != 1:
+        return False
+    lp = loops[0]
+    # roots bound only by this loop
+    for n in ast.walk(fn):
+        if n is lp:
+            continue
+        if isinstance(n, (ast.For, ast.comprehension)) and targets(n.target) & roots:
+            return False
+        if isinstance(n, ast.Name) and isinstance(n.ctx, ast.Store) and n.id in roots and not any(
+                n is x for x in ast.walk(lp.target)):
+            return False
+    body_nodes = [x for b in lp.body for x in ast.walk(b)]
+    ids = {id(x) for x in body_nodes}
+    dpos = None
+    for x in body_nodes:
+        if isinstance(x, ast.Name) and x.id == name and isinstance(x.ctx, ast.Store):
+            dpos = (x.lineno, x.col_offset)
+    if dpos is None:
+        return False
+    # the definition must be a direct statement of the loop body (executed in every iteration before the uses)
+    if not any(isinstance(b, ast.Assign) and any(isinstance(t, ast.Name) and t.id == name for t in b.targets) for b in lp.body):
+        return False
+    for x in ast.walk(fn):
+        if isinstance(x, ast.Name) and x.id == name and isinstance(x.ctx, ast.Load):
+            if id(x) not in ids or (x.lineno, x.col_offset) < dpos:
+                return False
+    return True
+
+
+# properties that always answer with the same object for the life of their owner (read and confirmed):
+STABLE_PROPS = frozenset("""model system spmgr refmgr updater manager tracegraph refgraph executor callstack
+iomanager interface_cls""".split())
+
+
+def unstable_attrs(trees):
+    """Attribute names whose value may differ between two reads in one function: assigned somewhere in the
+    package outside __init__ / __new__ / __setstate__, or computed by a property that is not in STABLE_PROPS.
+    An alias of a chain through such an attribute is a *snapshot* (old_name = cells.name; val = ref.interface;
+    node = space.idstr): it is never inlined."""
+    out = set()
+    for tree in trees:
+        for fn in ast.walk(tree):
+            if not isinstance(fn, FUNC_TYPES):
+                continue
+            is_prop = any((isinstance(d, ast.Name) and d.id in ("property", "cached_property"))
+                          or (isinstance(d, ast.Attribute) and d.attr in ("setter", "getter", "deleter"))
+                          for d in fn.decorator_list)
+            if is_prop and fn.name not in STABLE_PROPS:
+                out.add(fn.name)
+            ctor = fn.name in ("__init__", "__new__", "__setstate__")
+            for n in ast.walk(fn):
+                tg = []
+                if isinstance(n, ast.Assign):
+                    tg = n.targets
+                elif isinstance(n, (ast.AugAssign, ast.AnnAssign)):
+                    tg = [n.target]
+                elif isinstance(n, ast.Delete):
+                    tg = n.targets
+                for t in tg:
+                    for a in ast.walk(t):
+                        if isinstance(a, ast.Attribute) and isinstance(a.ctx, (ast.Store, ast.Del)):
+                            if not (ctor and isinstance(a.value, ast.Name) and a.value.id == "self"):
+                                out.add(a.attr)
+                if isinstance(n, ast.Call) and isinstance(n.func, ast.Name) and n.func.id in ("setattr", "delattr") \
+                        and len(n.args) >= 2 and isinstance(n.args[1], ast.Constant):
+                    out.add(n.args[1].value)
+    return frozenset(out) - STABLE_PROPS
+
+
+def alias_defs(fn, unstable=frozenset()):
     counts, defs = {}, {}
     params = {a.arg for a in fn.args.posonlyargs + fn.args.args + fn.args.kwonlyargs}
     if fn.args.vararg:
@@ -130,10 +215,15 @@ def alias_defs(fn):
             continue
         # the source must not be re-bound in this function (old_name = self.name; self.name = ...)
         attrs = {a.attr for a in ast.walk(v) if isinstance(a, ast.Attribute)}
+        if attrs & unstable:
+            continue
         roots = {a.id for a in ast.walk(v) if isinstance(a, ast.Name)}
         if attrs & written_attrs:
             continue
-        if any(counts.get(r, 0) > 1 for r in roots) or roots & written_names:
+        multi = {r for r in roots if counts.get(r, 0) > 1}
+        if roots & written_names:
+            continue
+        if multi and not _loop_local(fn, k, multi):
             continue
         if isinstance(v, ast.Name) and v.id == k:
             continue
@@ -228,9 +318,54 @@ class _Drop(ast.NodeTransformer):
         return node
 
 
-def canonicalize(fn):
+class _IfAssign(ast.NodeTransformer):
+    """if c: v = A  elif d: v = B  else: v = C   ->   v = A if c else (B if d else C)
+    (every branch is exactly one plain assignment to the same name; a final else is required)."""
+
+    def __init__(self):
+        self.top = True
+
+    def _fn(self, node):
+        if self.top:
+            self.top = False
+            return self.generic_visit(node)
+        return node
+
+    visit_FunctionDef = visit_AsyncFunctionDef = _fn
+
+    def visit_If(self, node):
+        self.generic_visit(node)
+        r = self._as_ifexp(node)
+        if r is None:
+            return node
+        name, value = r
+        new = ast.Assign(targets=[ast.Name(id=name, ctx=ast.Store())], value=value)
+        ast.copy_location(new, node)
+        ast.copy_location(new.targets[0], node)
+        return new
+
+    def _as_ifexp(self, node):
+        def single(body):
+            if len(body) == 1 and isinstance(body[0], ast.Assign) and len(body[0].targets) == 1 \
+                    and isinstance(body[0].targets[0], ast.Name):
+                return body[0].targets[0].id, body[0].value
+            return None
+        a = single(node.body)
+        if a is None or not node.orelse:
+            return None
+        b = single(node.orelse)
+        if b is None or b[0] != a[0]:
+            return None
+        v = ast.IfExp(test=node.test, body=a[1], orelse=b[1])
+        ast.copy_location(v, node)
+        return a[0], v
+
+
+def canonicalize(fn, unstable=frozenset()):
     """Inline pure alias locals in place (fn is a FunctionDef).  Returns the alias map used."""
-    defs = alias_defs(fn)
+    _IfAssign().visit(fn)
+    ast.fix_missing_locations(fn)
+    defs = alias_defs(fn, unstable)
     if not defs:
         return {}
     tr = _Inline(defs)
